@@ -10,6 +10,7 @@ package main
 
 import (
 	"bufio"
+	"context"
 	"crypto/md5"
 	"crypto/sha256"
 	"encoding/hex"
@@ -32,6 +33,7 @@ import (
 	"github.com/go-openapi/runtime"
 	"github.com/go-openapi/runtime/middleware"
 
+	"github.com/ErdemOzgen/blackdagger/internal/agent"
 	"github.com/ErdemOzgen/blackdagger/internal/client"
 	"github.com/ErdemOzgen/blackdagger/internal/dag"
 	"github.com/ErdemOzgen/blackdagger/internal/dag/scheduler"
@@ -160,7 +162,7 @@ type Body struct {
 }
 
 type Step struct {
-	Kind string `json:"kind"` // setup: mkdag mkshow rec surgery live hang unlive stubexit;  api: post create delete details;  exec: run the last spawned argv with the REAL binary
+	Kind string `json:"kind"` // setup: mkdag mkshow mkhandler rec surgery live hang agent agentwait unlive stubexit;  api: post create delete details;  exec: run the last spawned argv with the REAL binary
 	Name string `json:"name,omitempty"`
 	Text string `json:"text,omitempty"`
 	// rec
@@ -170,6 +172,11 @@ type Step struct {
 	// live
 	Reqid  string `json:"reqid,omitempty"`
 	Status int    `json:"status,omitempty"`
+	Big    bool   `json:"big,omitempty"` // live: the agent's status JSON is large (hundreds of steps, > 64 KiB)
+	// post while a REAL in-process agent (kind agent) runs the DAG: the phase of that run right before / after the call:
+	// "steps" (steps executing), "handler" (all steps ended, a lifecycle handler executing), "done" (nobody answers)
+	PhaseBefore string `json:"phase_before,omitempty"`
+	PhaseAfter  string `json:"phase_after,omitempty"`
 	Exit   int    `json:"exit,omitempty"`
 	Body   *Body  `json:"body,omitempty"`
 	// observed
@@ -214,7 +221,7 @@ type Case struct {
 }
 
 var base = time.Date(2024, 1, 1, 0, 0, 0, 0, time.UTC)
-var names = []string{"a", "ab", "a b", "nope", "fresh", "a.b"}
+var names = []string{"a", "ab", "a b", "nope", "fresh", "a.b", "h", "r"}
 
 // ---------------------------------------------------------------------------------------------
 // environment
@@ -253,6 +260,7 @@ type env struct {
 	nspawn                  int
 	lg                      logger.Logger
 	raw, rawNow             map[[2]string][]string
+	agents                  map[string]chan error // name -> completion of the real agent running it
 	lastSpawn               []string
 	lastParams              string
 }
@@ -293,6 +301,12 @@ func (e *env) close() {
 	}
 	for l := range e.hang {
 		e.stopHang(l)
+	}
+	for _, ch := range e.agents {
+		select {
+		case <-ch:
+		case <-time.After(30 * time.Second):
+		}
 	}
 }
 
@@ -470,7 +484,16 @@ func mkStatus(name string, ln Line) *model.Status {
 	return st
 }
 
-func (e *env) startLive(name, reqid string, st int) error {
+// bigNodes: a status the size a run of a few hundred steps has
+func bigNodes() []NodeSt {
+	ns := []NodeSt{{N: "s1", S: 1}, {N: "s2", S: 0}}
+	for i := 0; i < 400; i++ {
+		ns = append(ns, NodeSt{N: fmt.Sprintf("generated-step-%04d-with-a-long-descriptive-name", i), S: 0})
+	}
+	return ns
+}
+
+func (e *env) startLive(name, reqid string, st int, big bool) error {
 	l := e.loc(name)
 	if old, ok := e.live[l]; ok {
 		e.stopLive(old)
@@ -480,7 +503,11 @@ func (e *env) startLive(name, reqid string, st int) error {
 	srv, err := sock.NewServer(d.SockAddr(), func(w http.ResponseWriter, r *http.Request) {
 		switch {
 		case r.Method == http.MethodGet && r.URL.Path == "/status":
-			s := mkStatus(name, Line{R: reqid, S: st, Nodes: []NodeSt{{N: "s1", S: 1}, {N: "s2", S: 0}}})
+			nodes := []NodeSt{{N: "s1", S: 1}, {N: "s2", S: 0}}
+			if big {
+				nodes = bigNodes()
+			}
+			s := mkStatus(name, Line{R: reqid, S: st, Nodes: nodes})
 			b, _ := s.ToJSON()
 			w.WriteHeader(http.StatusOK)
 			_, _ = w.Write(b)
@@ -633,6 +660,21 @@ func (e *env) apply(s *Step) {
 		outf := filepath.Join(e.root, "show.out")
 		_ = os.WriteFile(script, []byte("#!/bin/sh\nprintf '%s|%s|%s' \"$(printenv 1)\" \"$(printenv 2)\" \"$(printenv NAME)\" > "+outf+"\n"), 0o755)
 		_ = os.WriteFile(filepath.Join(e.dags, s.Name+".yaml"), []byte("steps:\n  - name: show\n    command: "+script+"\n"), 0o644)
+	case "mkhandler":
+		// a DAG whose exit handler takes a few seconds: while it executes the run is still in progress
+		_ = os.WriteFile(filepath.Join(e.dags, s.Name+".yaml"),
+			[]byte("handlerOn:\n  exit:\n    command: sleep 4\nsteps:\n  - name: s1\n    command: \"true\"\n"), 0o644)
+	case "agent":
+		e.startAgent(s)
+	case "agentwait":
+		if ch, ok := e.agents[s.Name]; ok {
+			select {
+			case <-ch:
+			case <-time.After(30 * time.Second):
+				s.Note, s.Code = "the run did not end", 1
+			}
+			delete(e.agents, s.Name)
+		}
 	case "exec":
 		e.realRun(s)
 	case "surgery":
@@ -659,7 +701,7 @@ func (e *env) apply(s *Step) {
 		}
 	case "live":
 		s.Loc = e.loc(s.Name)
-		if err := e.startLive(s.Name, s.Reqid, s.Status); err != nil {
+		if err := e.startLive(s.Name, s.Reqid, s.Status, s.Big); err != nil {
 			s.Note = err.Error()
 			s.Code = 1
 		}
@@ -683,7 +725,14 @@ func (e *env) apply(s *Step) {
 		if s.Body.Action != nil && *s.Body.Action == "save" {
 			b.Value = string(e.text(s.Body.Value)) // the case names the text by its id
 		}
+		if _, ok := e.agents[s.Name]; ok {
+			s.PhaseBefore = e.agentPhase(s.Name)
+			defer func() { s.PhaseAfter = e.agentPhase(s.Name) }()
+		}
 		isMark := s.Body.Action != nil && (*s.Body.Action == "mark-success" || *s.Body.Action == "mark-failed")
+		if _, ok := e.agents[s.Name]; ok {
+			isMark = false // the history queries are not taken while a real run is writing
+		}
 		if _, hung := e.hang[e.loc(s.Name)]; hung {
 			isMark = false // every query would wait out the 3 s socket timeout; the byte-level dump is the observable here
 		}
@@ -754,6 +803,60 @@ func (e *env) apply(s *Step) {
 
 // realRun executes the argv the API spawned last with the real binary (built from the tree under test) over a
 // data directory of its own, and reads back what the run recorded and what its step saw.
+// startAgent runs the DAG with a REAL agent in this process (its own data store instance, as a separate process has)
+// and returns once all steps have ended and the exit handler is executing.
+func (e *env) startAgent(s *Step) {
+	loc := e.loc(s.Name)
+	s.Loc = loc
+	wf, err := dag.Load("", loc, "")
+	if err != nil {
+		s.Note, s.Code = err.Error(), 1
+		return
+	}
+	store := dsclient.NewDataStores(e.dags, e.data, e.flags, dsclient.DataStoreOptions{LatestStatusToday: false})
+	logDir := filepath.Join(e.root, "agentlog")
+	_ = os.MkdirAll(logDir, 0o755)
+	agt := agent.New(s.Reqid, wf, e.lg, logDir, "", client.New(store, "/bin/false", e.root, e.lg), store, &agent.Options{})
+	done := make(chan error, 1)
+	go func() { done <- agt.Run(context.Background()) }()
+	if e.agents == nil {
+		e.agents = map[string]chan error{}
+	}
+	e.agents[s.Name] = done
+	deadline := time.Now().Add(20 * time.Second)
+	for time.Now().Before(deadline) {
+		if e.agentPhase(s.Name) == "handler" {
+			time.Sleep(500 * time.Millisecond) // the agent's delayed first status write (100 ms after the start) has passed
+			return
+		}
+		time.Sleep(20 * time.Millisecond)
+	}
+	s.Note, s.Code = "the run never got to its exit handler", 1
+}
+
+// agentPhase asks the run itself (raw request on its control socket; the node table is what counts, not the
+// overall label): all steps ended and the exit handler running = "handler"
+func (e *env) agentPhase(name string) string {
+	d := &dag.DAG{Name: name, Location: e.loc(name)}
+	ret, err := sock.NewClient(d.SockAddr()).Request("GET", "/status")
+	if err != nil {
+		return "done"
+	}
+	st, err := model.StatusFromJSON(ret)
+	if err != nil || st == nil {
+		return "unknown"
+	}
+	for _, n := range st.Nodes {
+		if n.Status == scheduler.NodeStatusNone || n.Status == scheduler.NodeStatusRunning {
+			return "steps"
+		}
+	}
+	if st.OnExit != nil && st.OnExit.Status == scheduler.NodeStatusRunning {
+		return "handler"
+	}
+	return "ending"
+}
+
 func (e *env) realRun(s *Step) {
 	bin := os.Getenv("VERIF_BDBIN")
 	if bin == "" || len(e.lastSpawn) == 0 {
@@ -884,6 +987,10 @@ func stateSetup(state string) []Step {
 		st = append(st, Step{Kind: "rec", Name: "a", Stamp: 2000, Lines: []Line{line(reqCur, 1, 1, 0), line(reqCur, 3, 4, 3)}, Closed: true})
 	case "crashed":
 		st = append(st, Step{Kind: "rec", Name: "a", Stamp: 2000, Lines: []Line{line(reqCur, 1, 4, 1)}, Closed: false})
+	case "running-big":
+		// a running DAG of a few hundred steps: the status its process answers is larger than 64 KiB
+		st = append(st, Step{Kind: "rec", Name: "a", Stamp: 2000, Lines: []Line{line(reqCur, 1, 1, 0)}, Closed: false},
+			Step{Kind: "live", Name: "a", Reqid: reqCur, Status: 1, Big: true})
 	case "running-unresponsive":
 		// the run's process is alive and owns the control socket, but does not answer (stopped / starved)
 		st = append(st, Step{Kind: "rec", Name: "a", Stamp: 2000, Lines: []Line{line(reqCur, 1, 1, 0)}, Closed: false},
@@ -1113,6 +1220,26 @@ func generated(tier string, rng *vh.Rng) []*Case {
 			k++
 		}
 	}
+	for _, r := range rows() {
+		if r.name == "start/params1" || r.name == "stop" || r.name == "mark-success/req-cur/step-s1" || r.name == "mark-failed/req-old/step-s2" ||
+			r.name == "details" {
+			steps := append([]Step{}, stateSetup("running-big")...)
+			steps = append(steps, r.pre...)
+			steps = append(steps, r.step)
+			cs = append(cs, &Case{K: k, Stream: "table-big", State: "running-big", Row: r.name, Steps: steps})
+			k++
+		}
+	}
+	// a REAL agent (in this process) whose steps have ended and whose exit handler is executing: the run is in progress
+	cs = append(cs, &Case{K: k, Stream: "real-agent", State: "running-handler", Row: "start+marks", Steps: []Step{
+		{Kind: "mkhandler", Name: "h"},
+		{Kind: "agent", Name: "h", Reqid: "req-agent-0000001"},
+		post("h", Body{Action: sp("start"), Params: "x"}),
+		post("h", Body{Action: sp("mark-failed"), RequestID: "req-agent-0000001", Step: "s1"}),
+		post("h", Body{Action: sp("mark-success"), RequestID: "req-agent-0000001", Step: "s1"}),
+		{Kind: "agentwait", Name: "h"},
+		{Kind: "details", Name: "h"}}})
+	k++
 	// states of a DAG whose definition cannot be shown (invalid text / cyclic graph): every action but save is refused
 	for _, t := range []string{"T3", "T7"} {
 		for _, act := range []string{"start", "stop", "suspend", "mark-success", "retry", "rename"} {
